@@ -137,6 +137,25 @@ var Probes = []Probe{
 			}
 			return false, ""
 		}},
+	{ID: "O27", Props: []string{"C01", "C02"}, Input: "call with 256 arguments", WhatFail: "the argument count of OpCall is one byte: a call with 256 arguments is compiled as a call with 0 arguments",
+		Run: func() (bool, string) {
+			var ps, as []string
+			for i := 0; i < 256; i++ {
+				ps = append(ps, fmt.Sprintf("p%d", i))
+				as = append(as, "1")
+			}
+			g, e, p := RunScript("f := func("+strings.Join(ps, ", ")+") { return p0 + p255 }\nout := f("+strings.Join(as, ", ")+")\n", 5*time.Second)
+			if p != "" {
+				return true, "panic: " + p
+			}
+			if strings.HasPrefix(e, "compile: ") {
+				return false, "" // rejected at compile time: acceptable
+			}
+			if e != "" || g["out"] != "(i 2)" {
+				return true, "out = " + g["out"] + " err = " + e
+			}
+			return false, ""
+		}},
 	{ID: "O8", Props: []string{"C04"}, Input: "1030 top-level variables", WhatFail: "Script.Compile panics: slice bounds out of range [:1032] with capacity 1024",
 		Run: expectNoPanic(manyVars(1030, false))},
 	{ID: "O11", Props: []string{"C06", "C17"}, Input: `MaxStringLen=10; format("%x", "abcdefgh")`, WhatFail: "%x on a string returns 16 bytes although the maximum string length is 10",
